@@ -219,8 +219,13 @@ Proof. intros Htl Hb Hcl Hv. unfold image_controlled_peek. rewrite Hcl, Htl, val
 
 (* C05_block: block_poll returns new position - old position; the block is [old, new) and consists of whole frames:
    either one padding frame, or data frames only, of total length at most the block length limit *)
-Theorem block_run m bits init l im fs blimit :
-  ctx bits init (im_pos im) l fs -> im_closed im = false -> in_i32 (im_pos im mod 2 ^ bits + blimit) = true ->
+Lemma block_lo off blimit cap : 0 <= off -> cap < two31 -> in_i32 (off + blimit) = true \/ in_i32 blimit = true ->
+  Z.min (sat_add32 off blimit) cap = Z.min (off + blimit) cap.
+Proof. unfold sat_add32, in_i32, two31. intros Ho Hc H. lia. Qed.
+
+Theorem block_run_all m bits init l im fs blimit :
+  ctx bits init (im_pos im) l fs -> im_closed im = false ->
+  in_i32 (im_pos im mod 2 ^ bits + blimit) = true \/ in_i32 blimit = true ->
   exists k ds ws im', (k <= length fs)%nat /\ badm blimit fs k = true /\
     image_block_poll m l im blimit = Ok (Ok (span_sum (consumed fs k)), ds, ws, im') /\
     im_pos im' = im_pos im + span_sum (consumed fs k) /\
@@ -230,8 +235,9 @@ Theorem block_run m bits init l im fs blimit :
 Proof. intros Hc Hcl Hi32. pose proof Hc as [Htl Hi Hwf _].
   destruct (wf_call_facts _ _ _ _ Hwf) as (Hb & Hii & Hp & Hn & Ho & Hal & Hf & Hbase).
   pose proof (wf_frames_pos _ _ _ _ Hf) as Hfp. set (off := im_pos im mod 2 ^ bits) in *.
-  unfold image_block_poll. rewrite Hcl, (ctx_sel _ _ _ _ _ Hc). cbn [bind]. fold off. unfold add32, chk32. rewrite Hi32.
-  cbn [bind]. rewrite Htl.
+  assert (H30 : 2 ^ bits <= 2 ^ 30) by (apply Z.pow_le_mono_r; lia). change (2 ^ 30) with 1073741824 in H30.
+  unfold image_block_poll. rewrite Hcl, (ctx_sel _ _ _ _ _ Hc). cbn [bind]. fold off.
+  rewrite Htl. rewrite (block_lo off blimit (2 ^ bits)) by (unfold two31; lia || assumption).
   destruct (term_scan_spec (Z.min (off + blimit) (2 ^ bits)) fs off Hfp) as (k & Hk & Hcase & He).
   rewrite He. unfold consumed. set (len := span_sum (firstn k fs)) in *.
   replace (off + len - off) with len by lia.
@@ -247,6 +253,48 @@ Proof. intros Hc Hcl Hi32. pose proof Hc as [Htl Hi Hwf _].
     + intros; lia.
   - exists k. do 3 eexists. split; [assumption|]. split; [assumption|]. split; [reflexivity|].
     split; [lia|]. split; [intros; lia|]. intros _. split; reflexivity. Qed.
+
+(* the statement as it stood before the fix brought every i32 limit inside: limits whose sum with the offset fits an i32 *)
+Theorem block_run m bits init l im fs blimit :
+  ctx bits init (im_pos im) l fs -> im_closed im = false -> in_i32 (im_pos im mod 2 ^ bits + blimit) = true ->
+  exists k ds ws im', (k <= length fs)%nat /\ badm blimit fs k = true /\
+    image_block_poll m l im blimit = Ok (Ok (span_sum (consumed fs k)), ds, ws, im') /\
+    im_pos im' = im_pos im + span_sum (consumed fs k) /\
+    (0 < span_sum (consumed fs k) -> exists f, nth_error fs 0 = Some f /\ ds = [(im_pos im mod 2 ^ bits, f)]
+                                              /\ ws = [im_pos im + span_sum (consumed fs k)]) /\
+    (span_sum (consumed fs k) = 0 -> ds = [] /\ ws = []).
+Proof. intros Hc Hcl Hi. apply (block_run_all m bits init l im fs blimit Hc Hcl). left. exact Hi. Qed.
+
+(* progress of block_poll with "no limit": the first visible frame is never left behind *)
+Lemma scan_loop_ge start limit : forall fs off, frames_pos fs -> off <= scan_loop start limit fs off.
+Proof. induction fs as [|f r IH]; intros off Hp; rewrite scan_loop_eq.
+  - destruct (off <? limit); lia.
+  - apply frames_pos_inv in Hp as [Hf Hr]. pose proof (span_bounds f Hf).
+    destruct (off <? limit); [|lia]. destruct (is_pad f); [destruct (start =? off); lia|].
+    destruct (off + span f >? limit); [lia|]. specialize (IH (off + span f) Hr). lia. Qed.
+
+Theorem block_progress m bits init l im f r blimit :
+  ctx bits init (im_pos im) l (f :: r) -> im_closed im = false -> in_i32 blimit = true -> 2 ^ bits <= blimit ->
+  exists ret ds ws im', image_block_poll m l im blimit = Ok (ret, ds, ws, im') /\ im_pos im + span f <= im_pos im'.
+Proof. intros Hc Hcl Hbl Hbig. pose proof Hc as [Htl Hi Hwf _].
+  destruct (wf_call_facts _ _ _ _ Hwf) as (Hb & Hii & Hp & Hn & Ho & Hal & Hf & Hbase).
+  pose proof (wf_frames_pos _ _ _ _ Hf) as Hfp. set (off := im_pos im mod 2 ^ bits) in *.
+  assert (H30 : 2 ^ bits <= 2 ^ 30) by (apply Z.pow_le_mono_r; lia). change (2 ^ 30) with 1073741824 in H30.
+  pose proof (wf_frames_fit bits im Hcl _ _ _ _ Hf ltac:(lia)) as Hfit. cbn [span_sum] in Hfit.
+  apply frames_pos_inv in Hfp as [Hf1 Hr]. pose proof (span_bounds f Hf1) as Hsp. pose proof (span_sum_nonneg r Hr) as Hrs.
+  unfold image_block_poll. rewrite Hcl, (ctx_sel _ _ _ _ _ Hc). cbn [bind]. fold off.
+  rewrite Htl. rewrite (block_lo off blimit (2 ^ bits)) by (unfold two31; lia || (right; assumption)).
+  replace (Z.min (off + blimit) (2 ^ bits)) with (2 ^ bits) by lia.
+  unfold term_scan. rewrite scan_loop_eq.
+  assert (E1 : off <? 2 ^ bits = true) by lia. rewrite E1.
+  assert (Hge : off + span f <= (if is_pad f then (if off =? off then off + span f else off)
+                                 else if off + span f >? 2 ^ bits then off else scan_loop off (2 ^ bits) r (off + span f))).
+  { destruct (is_pad f); [rewrite Z.eqb_refl; lia|]. assert (E2 : off + span f >? 2 ^ bits = false) by lia. rewrite E2.
+    apply scan_loop_ge. assumption. }
+  set (ro := if is_pad f then (if off =? off then off + span f else off)
+             else if off + span f >? 2 ^ bits then off else scan_loop off (2 ^ bits) r (off + span f)) in *.
+  assert (E3 : ro >? off = true) by lia. rewrite E3. do 4 eexists. split; [reflexivity|].
+  unfold after_writes, set_pos. cbn [last im_pos]. lia. Qed.
 
 (* closed-image short circuits *)
 Theorem closed_polls m l im : im_closed im = true ->
